@@ -221,6 +221,17 @@ fn range_classes(l: u64) -> Vec<(&'static str, Option<String>)> {
         ("suffix", Some(format!("bytes=-{}", l.clamp(1, 5)))),
         ("open", Some(format!("bytes={}-", l / 2))),
         ("garbage", Some("bytes=abc".to_string())),
+        // two ranges leaving a ~180-byte window: for L near 2^64 the exact multipart length crosses
+        // 2^64 although the 80-bytes-per-part estimate does not
+        ("all-but-window", Some(format!("bytes=0-{},{lm1}-{lm1}", l.saturating_sub(180)))),
+        // a range that ends at 10^k - 1 for the largest k that fits (digit-count boundaries)
+        ("pow10-end", {
+            let mut p = 1u64;
+            while p <= l / 10 {
+                p *= 10;
+            }
+            Some(format!("bytes=0-0,{}-{}", p.saturating_sub(2), p.saturating_sub(1).min(lm1)))
+        }),
     ]
 }
 
@@ -861,14 +872,56 @@ pub fn run_c06(run: &mut Run) -> Stats {
             }
         }
     }
+    // Special (L, range set) families beyond the base product:
+    //  * decimal boundaries: a range start / end / the entity length at 10^k-1, 10^k-2, 10^k-3 for
+    //    every k up to 19 (digit-count arithmetic, also in floating point, goes wrong exactly there)
+    //  * near-overflow: L within a few bytes of 2^64 and ranges that leave a window of 150..260
+    //    bytes, where the 80-bytes-per-part estimate still says "multipart" but the exact length
+    //    crosses 2^64 (=> 413) or just does not
+    let mut special: Vec<(u64, Vec<(u64, u64)>)> = Vec::new();
+    for k in 3..=19u32 {
+        let p = 10u64.pow(k);
+        let l1 = p.saturating_add(5);
+        for j in 0..3u64 {
+            special.push((l1, vec![(0, 0), (p - 1 - j, p - 1)]));
+            special.push((l1, vec![(p - 1 - j, p - 1 - j), (3, 4), (p - 2, p - 1)]));
+        }
+        for d in 1..=3u64 {
+            special.push((p - d, vec![(0, 0), (5, 5)]));
+            special.push((p - d, vec![(p - d - 1, p - d - 1), (1, 2)]));
+        }
+    }
+    for l in [u64::MAX, u64::MAX - 1, u64::MAX - 40] {
+        for w in (150..=260u64).step_by(tier.pick(3, 1)) {
+            special.push((l, vec![(0, l - w), (l - 1, l - 1)]));
+            special.push((l, vec![(l - 1, l - 1), (1, l - w)]));
+            special.push((l, vec![(0, l / 2), (l / 2 + 1, l - w - 100), (l - 2, l - 1)]));
+        }
+    }
+    let n_special = special.len();
+    for (si, _) in special.iter().enumerate() {
+        for (hi, _) in hsets.iter().enumerate().take(3) {
+            for ifr in [false, true] {
+                outer.push((u64::MAX, hi, ifr, usize::MAX - si));
+            }
+        }
+    }
+    run.extra.insert("special_range_sets".into(), json!(n_special));
     let (kmax, dev, max_events) = tier.pick((2, 1, 3), (3, 1, 4));
-    run.rule = "GET x range sets of 2..8 satisfiable ranges (all 2-tuples and 3-tuples over 6 base ranges incl. overlapping/adjacent/duplicate/nested/reversed; 4..8-tuples as rotations and stride-2 walks of the base list: a stated subset) x L x entity header sets {none,1,2 incl. a 200-byte value,3} x If-Range {absent, matching strong} x contract-honouring chunkings per part (rotated through the parts); oracle = independent multipart parser: boundary from Content-Type, per part delimiter + Content-Range + entity headers as a multiset iff no If-Range + blank line + descriptor-exact entity bytes, closing delimiter, Content-Length == parsed length, no top-level Content-Range, one get_range per part in order. non-trivial = distinct (ranges, L, headers, If-Range, chunking) answered with multipart/byteranges".into();
+    run.rule = "GET x range sets of 2..8 satisfiable ranges (all 2-tuples and 3-tuples over 6 base ranges incl. overlapping/adjacent/duplicate/nested/reversed; 4..8-tuples as rotations and stride-2 walks of the base list, 9..40 parts as single walks: a stated subset; plus decimal-boundary sets -- a start, end or L at 10^k-1..10^k-3 for every k <= 19 -- and near-overflow sets -- L within 40 bytes of 2^64 with ranges leaving a 150..260-byte window, where the exact length does or does not cross 2^64) x L x entity header sets {none,1,2 incl. a 200-byte value,3} x If-Range {absent, matching strong} x contract-honouring chunkings per part (rotated through the parts); oracle = independent multipart parser: boundary from Content-Type, per part delimiter + Content-Range + entity headers as a multiset iff no If-Range + blank line + descriptor-exact entity bytes, closing delimiter, Content-Length == parsed length, no top-level Content-Range, one get_range per part in order. non-trivial = distinct (ranges, L, headers, If-Range, chunking) answered with multipart/byteranges".into();
     run.bounds = json!({"L": lens.iter().map(|l| l.to_string()).collect::<Vec<_>>(), "range_sets_per_L": multi_range_sets(1000, tier).len(), "kmax_chunks": kmax, "benign_deviations": dev});
     run.assumptions.push("entity streams honour the Entity contract".into());
     let ev = Eval { prop: &run.prop.clone(), extra_polls: 1 };
     par_for(outer.len() as u64, threads(), |i, st| {
         let (l, hi, ifr, si) = outer[i as usize];
-        let set = &multi_range_sets(l, tier)[si];
+        let sets_l;
+        let (l, set): (u64, &Vec<(u64, u64)>) = if si > usize::MAX / 2 {
+            let sp = &special[usize::MAX - si];
+            (sp.0, &sp.1)
+        } else {
+            sets_l = multi_range_sets(l, tier);
+            (l, &sets_l[si])
+        };
         let h = format!("bytes={}", set.iter().map(|(a, b)| format!("{a}-{b}")).collect::<Vec<_>>().join(", "));
         let mut req = Req::new("GET").with("range", h.as_bytes());
         if ifr {
@@ -1013,6 +1066,12 @@ pub fn run_c13(run: &mut Run) -> Stats {
         specials.push((0, format!("bytes=0-0,{b}-").into_bytes()));
         specials.push((0, format!("bytes=-{b},0-{b}").into_bytes()));
         specials.push((0, format!("bytes=0-{b},0-{b},0-{b}").into_bytes()));
+    }
+    for w in (150..=260u64).step_by(2) {
+        let l = u64::MAX;
+        specials.push((0, format!("bytes=0-{},{}-{}", l - w, l - 1, l - 1).into_bytes()));
+        specials.push((0, format!("bytes=0-{},{}-{},5-5", l - w - 100, l - 2, l - 1).into_bytes()));
+        specials.push((0, format!("bytes=0-{},{}-", (1u64 << 63) - w, (1u64 << 63) - 1).into_bytes()));
     }
     for g in ["bytes=0-1 ,2-3", "bytes= 0-1", "bytes=,0-1", "bytes=0-1,", "Bytes=0-1", "bytes=0-1,,2-3", "bytes=\u{7f}"] {
         if http::HeaderValue::from_bytes(g.as_bytes()).is_ok() {
